@@ -363,6 +363,8 @@ def fresh_like(C, v, base):
         return SAny(z3.Const(fresh_name(base), C.AnyT))
     if isinstance(v, SNone):
         return v
+    if v.kind == 'gharr':
+        return type(v)(z3.Const(fresh_name(base), v.t.sort()))
     if isinstance(v, STuple):
         return STuple([fresh_like(C, x, base) for x in v.items])
     if isinstance(v, (SFunc, SClass, SModule, SBuiltin, SLambda)) or v.kind == 'vclass':
@@ -379,7 +381,7 @@ def same_sv(a, b):
         return True
     if type(a) is not type(b):
         return False
-    if isinstance(a, (SInt, SBool, SVal, SStr, SAny)):
+    if isinstance(a, (SInt, SBool, SVal, SStr, SAny)) or a.kind == 'gharr':
         return a.t.eq(b.t)
     if isinstance(a, SRef):
         return a.cname == b.cname and a.t.eq(b.t)
@@ -942,9 +944,14 @@ def cut_loop(C, kind, s, st, fr, L=None):
     visited_at = (lambda idx: (lambda y: z3.And(L.mem(y), L.pos(y) < idx))) if elem_term is not None else (lambda idx: None)
     consts = {}
 
+    axioms = [None]     # callable(state, it) -> [z3]: definitional facts of ghost functions introduced for this loop
+
     def make_head(W, invs=(), with_i=True):
         h = havoc_state(C, pre, W, 'head', visited_at(i), consts)
         h.assume(i >= 0)
+        if axioms[0] is not None:
+            for a in axioms[0](h, i):
+                h.assume(a)
         for lab, f in invs:
             t = f(h, i)
             if t is not None:
@@ -978,6 +985,13 @@ def cut_loop(C, kind, s, st, fr, L=None):
     W = discover_writes(C, run_body, lambda w: make_head(w, user), pre, fr, i, elem_term)
     if elem_term is not None:
         consts.update(elem_constants(C, W, run_body, make_head, elem_term))
+    # invariants attached generically to loops of a recognised kind (e.g. ballot sweeps: the vote ledger); they are
+    # obligations exactly like the invariants of a @loops block
+    hk = ex.hooks.get('loop_declared')
+    if hk:
+        more, ax = hk(C, kind, s, L, W, pre, fr, visited_at)
+        user += more
+        axioms[0] = ax
 
     # ---- 2. candidate invariants
     cands = counter_candidates(C, W, pre, None)
@@ -1028,10 +1042,15 @@ def cut_loop(C, kind, s, st, fr, L=None):
     def inv_props(lab):
         m = re.match(r'\[([A-Z0-9,]+)\] ', lab)
         return sorted(set(props) | set(m.group(1).split(','))) if m else props
+    pre_ax = pre
+    if axioms[0] is not None and user:
+        pre_ax = pre.fork()
+        for a in axioms[0](pre_ax, z3.IntVal(0)):
+            pre_ax.assume(a)
     for lab, f in user:
-        t = f(pre, z3.IntVal(0))
+        t = f(pre_ax, z3.IntVal(0))
         ex.col.add('INV', inv_props(lab), fname, '%s:init:%s' % (anchor, lab[:60]), 'loop invariant holds on entry: ' + lab,
-                   C.assumptions(pre), t)
+                   C.assumptions(pre_ax), t)
     head = make_head(W, alive + user)
     v0 = None
     if unode is not None:
@@ -1058,6 +1077,9 @@ def cut_loop(C, kind, s, st, fr, L=None):
         ex_head.assume(i == L.length)
     else:
         ex_head.assume(i >= 0)
+    if axioms[0] is not None:
+        for a in axioms[0](ex_head, i):
+            ex_head.assume(a)
     for lab, f in alive + user:
         t = f(ex_head, i)
         if t is not None:
